@@ -113,7 +113,8 @@ def one_history(ctx, i, tmproot):
             truths = [truth, truth] + [others[0]] * 2
         base = {"op": OP, "truth0": truth, "switch": switch, "method": method, "rich": rich, "via": via, "via_symlink": via_symlink, "hand_written": hand_written, "crlf_files": sorted(p.features.get("crlf_files", [])),
                 "pre_states": sorted(set(pre.values())), "length": len(truths),
-                "truth_func_before": p.features.get(truth + "_func_before", False)}
+                "truth_func_before": p.features.get(truth + "_func_before", False),
+                "some_file_has_param_named_like_target": p.features.get("some_file_has_param_named_like_target", False)}
         replay = {"case": i, "seed": ctx.seed, "tier": ctx.tier, "pre": pre, "truths": truths,
                   "files": {os.path.basename(f): (open(f).read() if os.path.exists(f) else None) for f in p.files.values()}}
         ctx.case((tuple(truths), tuple(sorted(pre.items())), method, rich, via, i), nontrivial=any(s != "agreeing" for s in pre.values()),
